@@ -33,6 +33,14 @@ import findings  # noqa: E402
 
 ENV = dict(os.environ, GOFLAGS="-mod=mod", GOPROXY="off", GOSUMDB="off", GOTOOLCHAIN="local", CGO_ENABLED="0")
 NCPU = os.cpu_count() or 4
+# The registered checks always build against /repo and write to /verif/evidence. For measuring the framework
+# against seeded changes (lib/seed_eval.sh) a run can be pointed at a scratch copy of the repository instead:
+# VERIF_REPO=<checkout> builds a private copy of the harness against it, VERIF_OUT=<dir> receives binaries and
+# evidence, so that such runs neither touch /repo nor /verif/evidence and can run side by side.
+REPO = os.environ.get("VERIF_REPO", "/repo")
+OUT = os.environ.get("VERIF_OUT", ROOT)
+BIN = os.path.join(OUT, "bin")
+EVID = os.path.join(OUT, "evidence")
 
 
 class Infra(Exception):
@@ -41,9 +49,16 @@ class Infra(Exception):
 
 def build():
     """Rebuild the harness against /repo's current working tree (go's build cache makes it incremental)."""
-    os.makedirs(os.path.join(ROOT, "bin"), exist_ok=True)
-    p = subprocess.run(["go", "build", "-tags", "verif", "-o", os.path.join(ROOT, "bin") + "/", "./cmd/..."],
-                       cwd=os.path.join(ROOT, "harness"), env=ENV, capture_output=True, text=True)
+    os.makedirs(BIN, exist_ok=True)
+    src = os.path.join(ROOT, "harness")
+    if REPO != "/repo":
+        src = os.path.join(OUT, "harness")
+        shutil.rmtree(src, ignore_errors=True)
+        shutil.copytree(os.path.join(ROOT, "harness"), src)
+        gm = open(os.path.join(src, "go.mod")).read().replace("=> /repo", "=> " + REPO)
+        open(os.path.join(src, "go.mod"), "w").write(gm)
+    p = subprocess.run(["go", "build", "-tags", "verif", "-o", BIN + "/", "./cmd/..."],
+                       cwd=src, env=ENV, capture_output=True, text=True)
     if p.returncode != 0:
         raise Infra("harness build failed:\n" + p.stdout + p.stderr)
 
@@ -110,7 +125,7 @@ def replay(shard, job, prop, timeout):
     a panic in a server goroutine) is attributed to the behaviour in its journal, which becomes a
     violation record of class "crash"; the rest of the shard is then replayed by a new worker."""
     tool = job.get("tool", "replay")
-    base = [os.path.join(ROOT, "bin", tool), "-kind", job["kind"], "-n", str(job["n"]), "-prop", prop, "-in", shard]
+    base = [os.path.join(BIN, tool), "-kind", job["kind"], "-n", str(job["n"]), "-prop", prop, "-in", shard]
     if tool == "replay":
         try:
             p = subprocess.run(base, capture_output=True, text=True, timeout=timeout, env=ENV)
@@ -277,7 +292,7 @@ def run_job(job, prop, tier, seed, scratch, ev):
         if len(ev["samples"]) < 3:
             ev["samples"].extend((tot.get("samples") or [])[:1])
     elif mode == "go":
-        plan.run_go_job(job, prop, tier, seed, scratch, ev, rec, ROOT, ENV, tlc, tlc_stats, Infra)
+        plan.run_go_job(job, prop, tier, seed, scratch, ev, rec, OUT, ENV, tlc, tlc_stats, Infra)
     elif mode == "trace":
         run_trace_job(job, prop, seed, scratch, ev, rec)
     rec["wall_s"] = round(time.time() - t0, 1)
@@ -310,7 +325,7 @@ def validate_trace(trace_path, cfg, module, scratch, timeout=900):
 def run_trace_job(job, prop, seed, scratch, ev, rec):
     """I->S: a driver runs the real code (real parallelism) and records an ndjson trace; TLC validates it."""
     trace = os.path.join(scratch, "trace.ndjson")
-    cmd = [os.path.join(ROOT, "bin", job["tool"])] + [a.replace("{seed}", str(seed)) for a in job["args"]] + ["-out", trace]
+    cmd = [os.path.join(BIN, job["tool"])] + [a.replace("{seed}", str(seed)) for a in job["args"]] + ["-out", trace]
     errf = os.path.join(scratch, "driver.stderr")
     with open(errf, "w") as ef:
         p = subprocess.run(cmd, stdout=subprocess.PIPE, stderr=ef, text=True, timeout=job.get("timeout", 1500), env=dict(ENV, VERIF_STDERR="1"))
@@ -355,8 +370,8 @@ def run_trace_job(job, prop, seed, scratch, ev, rec):
             end = i + 1
             break
     bad = lines[start:end]
-    os.makedirs(os.path.join(ROOT, "evidence", "replays"), exist_ok=True)
-    tpath = os.path.join(ROOT, "evidence", "replays", "%s-trace-%d.ndjson" % (prop, seed))
+    os.makedirs(os.path.join(EVID, "replays"), exist_ok=True)
+    tpath = os.path.join(EVID, "replays", "%s-trace-%d.ndjson" % (prop, seed))
     open(tpath, "w").write("\n".join(bad) + "\n")
     v = dict(property=prop, kind=job.get("kind", ""), n=0, tool="tlc-trace",
              why="a recorded parallel execution equals no one-at-a-time order of its requests: event %d of the round (%s) cannot be explained"
@@ -375,7 +390,7 @@ def confirm(v, scratch):
     """Re-run a violation's steps once in a fresh worker; True if it fails again."""
     if v.get("confirm_cmd"):
         for _ in range(3):
-            p = subprocess.run(v["confirm_cmd"], shell=True, cwd=ROOT, env=ENV, capture_output=True, text=True)
+            p = subprocess.run(v["confirm_cmd"], shell=True, cwd=OUT, env=ENV, capture_output=True, text=True)
             if p.returncode == 1:
                 return True
         return False
@@ -387,14 +402,14 @@ def confirm(v, scratch):
     if tool != "replay":
         # a crash that needs a particular goroutine timing is re-run many times (each run is a few ms)
         for _ in range(60 if v.get("class") == "crash" else 4):
-            p = subprocess.run([os.path.join(ROOT, "bin", tool), "-replayfile", path], capture_output=True, text=True, env=ENV)
+            p = subprocess.run([os.path.join(BIN, tool), "-replayfile", path], capture_output=True, text=True, env=ENV)
             if p.returncode == 1 or (v.get("class") == "crash" and p.returncode not in (0, 1)):
                 return True
         return False
     # the code under test may itself be nondeterministic (e.g. Go map iteration order): a violation counts
     # as reproduced if one of a few fresh re-runs fails again
     for _ in range(8):
-        p = subprocess.run([os.path.join(ROOT, "bin", "replay"), "-replayfile", path], capture_output=True, text=True, env=ENV)
+        p = subprocess.run([os.path.join(BIN, "replay"), "-replayfile", path], capture_output=True, text=True, env=ENV)
         if p.returncode == 1:
             return True
     return False
@@ -416,7 +431,7 @@ def main():
         build()
         if args.replay:
             tool = json.load(open(args.replay)).get("tool", "replay")
-            p = subprocess.run([os.path.join(ROOT, "bin", tool), "-replayfile", args.replay, "-v"], env=ENV)
+            p = subprocess.run([os.path.join(BIN, tool), "-replayfile", args.replay, "-v"], env=ENV)
             if p.returncode != 0:
                 print("VIOLATION property=%s replay=%s" % (prop, args.replay))
             sys.exit(p.returncode)
@@ -460,9 +475,9 @@ def main():
             reported.append(v)
         unexplained_beyond_kept = ev["nviol"] - len(ev["violations"])
         for f in known:
-            if f["property"] == prop and f["status"] == "open" and (f["id"] in hits or findings.still_fails(f, ROOT, ENV)):
+            if f["property"] == prop and f["status"] == "open" and (f["id"] in hits or findings.still_fails(f, ROOT, ENV, BIN)):
                 print("KNOWN-FINDING: property=%s %s" % (prop, f["what"]))
-        os.makedirs(os.path.join(ROOT, "evidence", "replays"), exist_ok=True)
+        os.makedirs(os.path.join(EVID, "replays"), exist_ok=True)
         confirmed = 0
         classes = {}
         for v in sorted(reported, key=lambda x: len(x.get("steps") or [])):
@@ -473,12 +488,12 @@ def main():
                 continue
             if not confirm(v, scratch):
                 print("UNCONFIRMED (not reproduced in a fresh worker): %s" % v.get("why"))
-                os.makedirs(os.path.join(ROOT, "evidence", "unconfirmed"), exist_ok=True)
-                json.dump(v, open(os.path.join(ROOT, "evidence", "unconfirmed", "%s-%s.json" % (prop, v.get("hash", "x"))), "w"), indent=1)
+                os.makedirs(os.path.join(EVID, "unconfirmed"), exist_ok=True)
+                json.dump(v, open(os.path.join(EVID, "unconfirmed", "%s-%s.json" % (prop, v.get("hash", "x"))), "w"), indent=1)
                 rc = max(rc, 2)
                 continue
             confirmed += 1
-            path = os.path.join(ROOT, "evidence", "replays", "%s-%s.json" % (prop, v.get("hash", "x")))
+            path = os.path.join(EVID, "replays", "%s-%s.json" % (prop, v.get("hash", "x")))
             json.dump(v, open(path, "w"), indent=1)
             print("VIOLATION property=%s replay=%s" % (prop, path))
             print("  why: %s" % v.get("why"))
@@ -503,8 +518,8 @@ def main():
             exhaustive=False)
         evidence = dict(property_id=prop, tier=tier, seed=seed, level=plan.level(prop), coverage=coverage,
                         assumptions=plan.assumptions(prop), wall_s=round(time.time() - t0, 1), violations=confirmed)
-        os.makedirs(os.path.join(ROOT, "evidence"), exist_ok=True)
-        json.dump(evidence, open(os.path.join(ROOT, "evidence", prop + ".json"), "w"), indent=1)
+        os.makedirs(EVID, exist_ok=True)
+        json.dump(evidence, open(os.path.join(EVID, prop + ".json"), "w"), indent=1)
         print("%s %s: states=%d transitions=%d behaviours=%d completed=%d desynced=%d go_evals=%d traces=%d violations=%d wall=%.0fs" % (
             prop, tier, ev["states"], ev["transitions"], ev["behaviours"], ev["completed"], ev["desynced"], ev["go_evaluations"],
             ev["traces_validated"], confirmed, time.time() - t0))
